@@ -104,6 +104,10 @@ func (e *Eng) evalSpec(st *State, x *SExpr, env map[string]*Val, old map[string]
 		case "<", "<=", ">", ">=":
 			return scalar(fmt.Sprintf("(%s %s %s)", x.Name, l.T, r.T), "Bool", nil)
 		case "+", "-", "*":
+			if x.Name == "+" && l.Sort == "Str" && r.Sort == "Str" {
+				e.declareOnce("(declare-fun sconcat (Str Str) Str)")
+				return scalar(fmt.Sprintf("(sconcat %s %s)", l.T, r.T), "Str", nil)
+			}
 			return scalar(fmt.Sprintf("(%s %s %s)", x.Name, l.T, r.T), "Int", nil) // mathematical
 		case "/":
 			return scalar(fmt.Sprintf("(div %s %s)", l.T, r.T), "Int", nil)
@@ -262,7 +266,28 @@ func (e *Eng) evalSpec(st *State, x *SExpr, env map[string]*Val, old map[string]
 				return e.elemRead(st, sl.Elem(), b, i.T)
 			}
 		}
+		if b.Sort == "Int" && b.Go != nil {
+			if mt, ok := b.Go.Underlying().(*types.Map); ok {
+				v, _ := e.mapRead(st, mt, b.T, e.coerce(i, mt.Key()))
+				return v
+			}
+		}
 		panic("spec: index on " + b.Sort)
+	case SSlice:
+		b := e.evalSpec(st, x.Args[0], env, old)
+		lo, hi := "0", ""
+		if x.Args[1] != nil {
+			lo = e.evalSpec(st, x.Args[1], env, old).T
+		}
+		if b.Sort == "Str" {
+			hi = "(slen " + b.T + ")"
+			if x.Args[2] != nil {
+				hi = e.evalSpec(st, x.Args[2], env, old).T
+			}
+			e.ensureSubstr()
+			return scalar(fmt.Sprintf("(substr %s %s %s)", b.T, lo, hi), "Str", b.Go)
+		}
+		panic("spec: slice expression on " + b.Sort)
 	case SQuant:
 		inner := map[string]*Val{}
 		for k, v := range env {
